@@ -2,7 +2,7 @@
    then per input the errors with ALL their repair sequences), optionally followed by ` # OPT k=v …`.
    For every error whose configuration the mirror driver of Repair/Semantics.v reproduces (replaying
    the implementation's own first sequences, as C05 does):
-     IM  per implementation sequence: cost (scost), valid_repair, distance parsed (far)
+     IM  per implementation sequence: cost (scost), valid_repair, distance parsed (far; far_orig under OPT rankcap=0)
      RF  the extracted reference all_min_repairs (= simplify of ranked_successes), iterative deepening
          on cost driven from here with singleton schedules (time-capped: `cap` = not computed)
      RS  its sequences, each with the flag "some Shift of the full sequence returns the state stack
@@ -96,6 +96,20 @@ let () =
     let msmax = int_of_float (geto "msmax" 400.0) in
     let mirrors = int_of_float (geto "mirrors" 3.0) in   (* bit 0: pinned shift, bit 1: repaired shift *)
     let scap = int_of_float (geto "scap" 4000.0) in
+    (* rankcap=1: rank_cnds as repaired by /repo 00915cc (distance capped at in_laidx + TRY_PARSE_AT_MOST: far, ranked_successes,
+       search_mirror); rankcap=0: the pinned ranking (far_orig, ranked_successes_orig, search_mirror_orig) *)
+    let rankcap = int_of_float (geto "rankcap" 1.0) <> 0 in
+    (* direct=1: the reference is run once, with the schedule [cost of the implementation's sequences] (reference_complete holds
+       for every schedule: min_successes filters the minimum); for errors whose repairs cost too much to deepen step by step *)
+    let direct = int_of_float (geto "direct" 0.0) <> 0 in
+    (* fullvalid=1: also evaluate validC / validE (the hypotheses of C06_validated_search_complete and its at-error form) and, per error, rank_fuel_ok;
+       mirrorcap=1: run the search mirror also where the exhaustive reference was not computed (`RF cap`) — on a validated table
+       the mirror's set IS the reference set (C06_validated_search_complete_at_error), Python uses it as the oracle there *)
+    let fullvalid = int_of_float (geto "fullvalid" 0.0) <> 0 in
+    let mirrorcap = int_of_float (geto "mirrorcap" 0.0) <> 0 in
+    let far_v = if rankcap then far else far_orig in
+    let ranked_v = if rankcap then ranked_successes else ranked_successes_orig in
+    let mirror_v = if rankcap then search_mirror else search_mirror_orig in
     let pN = nat_of_int !pn and tRY = nat_of_int !trymax in
     let costsN = List.map n_of_int !costs and avoidN = List.map n_of_int !avoid in
     let nprods = List.length g.prods in
@@ -104,6 +118,7 @@ let () =
     let b = Buffer.create 1024 in
     Buffer.add_string b (Printf.sprintf "V wf=%s S=%s single=%s nse=%s" (b2s (wf_grammar g)) (b2s (validS g a))
       (b2s (single_candidate g a)) (b2s (dump_no_shift_eof g.eof dd)));
+    if fullvalid then Buffer.add_string b (Printf.sprintf " C=%s E=%s" (b2s (validC g a)) (b2s (validE g a)));
     List.iter (fun (c0 : icase) ->
      try
       let c = if List.length c0.errs > ecap then { c0 with errs = take ecap c0.errs } else c0 in
@@ -129,7 +144,7 @@ let () =
                 let cst = int_of_n (scost g input costsN rs p) in
                 impl_costs := cst :: !impl_costs;
                 let ok = valid_repair g a input ifuel pN stk p rs in
-                let fr = int_of_nat (far g a input ifuel tRY stk p rs) in
+                let fr = int_of_nat (far_v g a input ifuel tRY stk p rs) in
                 Buffer.add_string b (Printf.sprintf " # IM %d %s %d : %s" cst (b2s ok) fr (seq_str rs))
               end) ie.seqs;
             (* the reference, by iterative deepening on cost *)
@@ -142,7 +157,7 @@ let () =
             for cc = 1 to bound do
               reach.(cc) <- List.exists (fun v -> v >= 1 && cc >= v && reach.(cc - v)) vals
             done;
-            let sched = List.filter (fun cc -> reach.(cc)) (List.init (bound + 1) (fun x -> x)) in
+            let sched = if direct then [bound] else List.filter (fun cc -> reach.(cc)) (List.init (bound + 1) (fun x -> x)) in
             let result = ref None and status = ref "none" in
             (try
               List.iter (fun cc ->
@@ -151,7 +166,7 @@ let () =
                     match (try Some (count_nodes g a input ifuel pN costsN cc !pn stk p ncap) with Too_big -> None) with
                     | None -> status := "cap"
                     | Some _ ->
-                        (match ranked_successes g a input ifuel pN costsN tRY [n_of_int cc] stk p with
+                        (match ranked_v g a input ifuel pN costsN tRY [n_of_int cc] stk p with
                          | Some ((m, fm), l) ->
                              if List.length l > scap then status := "cap"
                              else (result := Some (int_of_n m, int_of_nat fm, l); status := "some")
@@ -170,15 +185,18 @@ let () =
                  List.iter (fun (s, f) -> Buffer.add_string b (Printf.sprintf " # RS %s : %s" (b2s f) s)) outs
              | None -> Buffer.add_string b (Printf.sprintf " # RF %s %d" !status bound));
             (* the mirrors only where the implementation's own search was small (its wall time is in the line) *)
-            if !status <> "cap" && nimpl > 0 && c.ms <= msmax then begin
+            if (!status <> "cap" || mirrorcap) && nimpl > 0 && c.ms <= msmax then begin
               (* the mirror of the search, pinned and repaired *)
                  List.iter (fun (tag, fixed) ->
                    let small = (try (match dijkstra fixed g a input ifuel pN costsN (nat_of_int mfuel) stk p with
-                                          | Done cnds -> List.fold_left (fun acc nd -> if acc > scap then acc else acc + count_unfold scap nd.n_rep) 0 cnds <= scap
+                                          | Done cnds ->
+                                              if fullvalid && fixed && rankcap then
+                                                Buffer.add_string b (Printf.sprintf " # RK %s" (b2s (rank_fuel_ok g a input ifuel tRY stk p cnds)));
+                                              List.fold_left (fun acc nd -> if acc > scap then acc else acc + count_unfold scap nd.n_rep) 0 cnds <= scap
                                           | _ -> true)
                                 with Stack_overflow -> false) in
                    match (if not small then OutOfFuel else
-                          try search_mirror fixed g a input ifuel pN costsN tRY avoidN (nat_of_int mfuel) stk p
+                          try mirror_v fixed g a input ifuel pN costsN tRY avoidN (nat_of_int mfuel) stk p
                           with Stack_overflow -> OutOfFuel) with
                    | Done out ->
                        Buffer.add_string b (Printf.sprintf " # %s done %d" tag (List.length out));
